@@ -110,6 +110,14 @@ PROPS["C20"] = {
     "runs": [R("split", ".", "root", ["ZzC20Split"], params={"GOSTUB": 1}, extras=_EXTRAS, quick_params={"PL": 6, "QL": 6}, thorough_params={"PL": 10, "QL": 10})],
 }
 
+# ---------------------------------------------------------------- C10
+PROPS["C10"] = {
+    "claimed": False, "level_text": "tbd", "level_note": "tbd",
+    "runs": [
+        R("basic", "pkg/auth", "pkg/auth", ["ZzC10Basic"], flags={"concoff": True}, quick_params={"UL": 2, "PL": 3}, thorough_params={"UL": 3, "PL": 4}),
+    ],
+}
+
 # ---------------------------------------------------------------- C14
 PROPS["C14"] = {
     "level_text": "One inductive step of the real reorder buffer (ProcessPacket2 / reorder) from EVERY pre-state satisfying the representation invariant: last delivered sequence number, packet sequence number and all counters are free 16/64-bit variables (so every wrap position is covered at once), every occupancy pattern of the buffer and every restart-counter value is explored, for buffer sizes 1,2,4 (quick) and 8 (thorough). The post-state and the returned packets are compared with a reference receiver written in the harness: strictly increasing delivery modulo 2^16, no duplicates, displaced packets inside the window are buffered not dropped, lost = skipped sequence numbers, counters, cycle counting, restart after B+1 old packets, invariant re-established. Because the invariant is inductive, the step result covers arrival histories of any length. Reliable mode and the receiver-report assembly (extended highest sequence number, 24-bit clamp, fraction) are separate obligations over all 16/32/64-bit values.",
